@@ -1,8 +1,10 @@
 SPECIFICATION Spec
 CONSTANTS
   Deviations <- RealDevs
-  RuleSets <- VacuitySets
+  RuleSets <- Q_keep
   MaxDepth = 2
   Wide = FALSE
-INVARIANT NeverNeedsDeviation
+INVARIANT PropertyHolds
+INVARIANT DeviationsExplain
+INVARIANT Emit
 CHECK_DEADLOCK FALSE
